@@ -161,6 +161,7 @@ func (x *Exec) havocCall(name string, resT *types.Tuple, args []Val, argVals []s
 		x.vc.note("havoc: call to %s (no model/contract): memory and maps havocked", name)
 		na := x.vc.S.freshConst("alloc_call", false)
 		x.vc.S.fact(r, sx(">=", na, st.Alloc))
+		x.vc.allocP[na] = []string{st.Alloc}
 		st.Alloc = na
 		x.vc.havocMem(st, "false")
 		x.vc.havocMaps(st)
@@ -169,8 +170,9 @@ func (x *Exec) havocCall(name string, resT *types.Tuple, args []Val, argVals []s
 		na := x.vc.S.freshConst("alloc_call", false)
 		x.vc.S.fact(r, sx(">=", na, st.Alloc))
 		old := st.Alloc
+		x.vc.allocP[na] = []string{old}
 		st.Alloc = na
-		x.vc.havocMem(st, sx("<", "r", old))
+		x.vc.havocFrame(st, old)
 	}
 	return x.havocVal(resT, st, r, "call_"+shortName(name))
 }
@@ -319,13 +321,13 @@ func (x *Exec) appendBuiltin(c *ssa.CallCommon, args []Val, st *State, r string)
 		t := args[1]
 		addLen = t[2].T
 		mem := st.Mem
-		srcRead = func(o string) string { return sel(mem, t[0].T, add(t[1].T, o)) }
+		srcRead = func(o string) string { return x.vc.read(mem, t[0].T, add(t[1].T, o)) }
 	}
 	newLen := x.vc.S.def("applen", ic(add(s[2].T, addLen))).T
 	oldCells := mulc(s[2].T, es)
 	mem := st.Mem
 	ref := x.vc.allocWith(st, "append", mulc(newLen, es), func(o string) string {
-		return ite(sx("<", o, oldCells), sel(mem, s[0].T, add(s[1].T, o)), srcRead(sub(o, oldCells)))
+		return ite(sx("<", o, oldCells), x.vc.read(mem, s[0].T, add(s[1].T, o)), srcRead(sub(o, oldCells)))
 	})
 	return Val{ic(ref), ic("0"), ic(newLen), ic(newLen)}
 }
@@ -380,6 +382,7 @@ func (x *Exec) callContract(fr *frame, cs *CallSite, fn *ssa.Function, ct *Contr
 	// frame
 	na := S.freshConst("alloc_call", false)
 	S.fact(r, sx(">=", na, st.Alloc))
+	x.vc.allocP[na] = []string{st.Alloc}
 	st.Alloc = na
 	keep := sx("<", "r", before.Alloc)
 	if len(ct.Modifies) > 0 {
@@ -389,12 +392,34 @@ func (x *Exec) callContract(fr *frame, cs *CallSite, fn *ssa.Function, ct *Contr
 		}
 		keep = and(keep, not(or(mods...)))
 	}
-	x.vc.havocMem(st, keep)
+	var base string
+	if len(ct.Modifies) == 0 {
+		base = x.vc.havocFrame(st, before.Alloc)
+	} else {
+		base = x.vc.havocMem(st, keep)
+	}
 	if _, ok := ct.Raw["modifies_maps"]; ok {
 		x.vc.havocMaps(st)
 	}
 	resT := fn.Signature.Results()
 	res := x.havocVal(resT, st, r, "res_"+fn.Name())
+	// results that are fresh objects are well typed in the new memory
+	{
+		off := 0
+		for j := 0; j < resT.Len(); j++ {
+			rt := resT.At(j).Type()
+			n := x.vc.ls.size(rt)
+			v := res[off : off+n]
+			off += n
+			fresh := and(r, sx(">=", v0(v), before.Alloc))
+			switch u := rt.Underlying().(type) {
+			case *types.Slice:
+				x.sliceElemFacts(base, u.Elem(), v[0].T, v[1].T, v[2].T, fresh, 1)
+			case *types.Pointer:
+				x.validFacts(base, u.Elem(), v[0].T, v[1].T, fresh, 1)
+			}
+		}
+	}
 	env2 := x.calleeEnv(fn, ct, args, st, &before)
 	off := 0
 	for j := 0; j < resT.Len(); j++ {
@@ -408,4 +433,11 @@ func (x *Exec) callContract(fr *frame, cs *CallSite, fn *ssa.Function, ct *Contr
 		S.fact(r, x.evalBool(env2, en.Expr))
 	}
 	return res, r
+}
+
+func v0(v Val) string {
+	if len(v) == 0 {
+		return "0"
+	}
+	return v[0].T
 }
